@@ -28,10 +28,12 @@ class Case:
     known    : list of (finding_id, z3 region constraint, concrete witness dict)
     """
 
-    def __init__(self, label, base, run, witness, replay, known=(), timeout=None):
+    def __init__(self, label, base, run, witness, replay, known=(), timeout=None, solver_ms=None, logic=None):
         self.label, self.base, self.run, self.witness, self.replay = label, list(base), run, witness, replay
         self.known = list(known)
         self.timeout = timeout
+        self.logic = logic                # z3 logic name for SolverFor (e.g. QF_BVFP); default: generic solver
+        self.solver_ms = solver_ms        # per-query solver timeout (default 20 s); floating-point queries need more
 
 
 class SX:
@@ -172,6 +174,13 @@ def run_cases(cases, total_timeout):
                 if z3.is_string_value(mv):
                     import re as _re
                     r[k] = _re.sub(r"\\u\{([0-9a-fA-F]+)\}", lambda m_: chr(int(m_.group(1), 16)), mv.as_string())
+                elif z3.is_fp(mv):
+                    from ..kx.fp import fp_value
+                    r[k] = fp_value(mv)
+                elif z3.is_rational_value(mv) and not z3.is_int_value(mv):
+                    r[k] = float(mv.as_fraction())
+                elif z3.is_bv_value(mv):
+                    r[k] = mv.as_long()
                 else:
                     r[k] = mv.as_long() if z3.is_int_value(mv) else (z3.is_true(mv) if z3.is_bool(mv) else str(mv))
             elif isinstance(v, (list, tuple)):
@@ -188,7 +197,7 @@ def run_cases(cases, total_timeout):
         if remaining <= 1:
             out["inconclusive"] = f"time budget exhausted before case {case.label}"
             break
-        ex = Explorer(timeout_s=min(case.timeout or per_case * 3, remaining))
+        ex = Explorer(timeout_s=min(case.timeout or per_case * 3, remaining), solver_timeout_ms=case.solver_ms or 20000, logic=case.logic)
         # known findings: replay witness on the real code; exclude the region only while it still fails
         for fid, region, wit, what in case.known:
             try:
@@ -261,7 +270,7 @@ def run_cases(cases, total_timeout):
                     elif isinstance(v, SInt):
                         excl.append(v.e == state["violation"]["inputs"][k])
                 case.base.append(z3.Not(z3.And(*excl)))
-                ex = Explorer(timeout_s=min(case.timeout or per_case * 3, max(1, t_end - time.time())))
+                ex = Explorer(timeout_s=min(case.timeout or per_case * 3, max(1, t_end - time.time())), solver_timeout_ms=case.solver_ms or 20000, logic=case.logic)
                 ex.base = list(case.base)
                 state.update(violation=None, mismatch=None)
                 status = ex.explore(path_fn, on_path)
